@@ -5,6 +5,8 @@ import (
 	"encoding/binary"
 	"encoding/json"
 	"fmt"
+	govv1beta1 "github.com/cosmos/cosmos-sdk/x/gov/types/v1beta1"
+	paramproposal "github.com/cosmos/cosmos-sdk/x/params/types/proposal"
 	"math/big"
 	"sort"
 	"strings"
@@ -57,6 +59,8 @@ type c16Extra struct {
 	C11Upgrade bool   `json:"c11_upgrade,omitempty"` // the trace belongs to C11's upgrade sub-profile
 	C17Upgrade bool   `json:"c17_upgrade,omitempty"` // ... to C17's upgrade sub-profile
 	C05Upgrade bool   `json:"c05_upgrade,omitempty"` // ... to C05's upgrade sub-profile
+	// ZeroExpAmount: the legacy minter parameters carry their exponential periods with amount 0 (valid in the previous format)
+	ZeroExpAmount bool `json:"zero_exp_amount,omitempty"`
 }
 
 const uc4ePerToken = 1_000_000
@@ -250,7 +254,7 @@ func c16Trace(seed uint64) *kernel.Trace {
 	if mp, err := GenMinterParams(r.Fork(3), spec.GenesisTime, BondDenom, MinterGenCfg{MaxPeriods: 4, MaxAmountExp: 20, MaxStepsHint: 100, Horizon: 24 * time.Hour, AllowNone: true}); err == nil {
 		spec.Minter = MinterGenesisJSON(mp, spec.GenesisTime)
 	}
-	tr := &kernel.Trace{Profile: "C16", Seed: seed, Spec: *spec, Extra: mustJSON(c16Extra{Variant: variant})}
+	tr := &kernel.Trace{Profile: "C16", Seed: seed, Spec: *spec, Extra: mustJSON(c16Extra{Variant: variant, ZeroExpAmount: r.Intn(6) == 0})}
 	for i := 0; i < 5; i++ {
 		b := kernel.Block{DtNs: int64(6 * time.Second)}
 		if i >= 2 {
@@ -275,11 +279,30 @@ func c16Trace(seed uint64) *kernel.Trace {
 				}
 			}
 		}
-		if i <= 1 && r.P(0.25) {
+		if (i <= 1 && r.P(0.25)) || (i == 2 && r.P(0.3)) {
+			// i == 2: the node is restarted some time after the upgrade (what the upgrade handler left in process memory is gone)
 			if r.Bool() {
 				b.Crash = -1
 			} else {
 				b.Crash = r.Range(1, 30)
+			}
+		}
+		if i >= 3 && r.P(0.35) {
+			// somebody submits an old-style parameter change for a subspace of a custom module (x/gov runs the content once at submission)
+			sub := []string{vtypes.ModuleName, mintertypes.ModuleName, disttypes.ModuleName}[r.Intn(3)]
+			key, val := "Denom", "\"uc4e\""
+			switch sub {
+			case mintertypes.ModuleName:
+				key, val = "MintDenom", "\"uc4e\""
+			case disttypes.ModuleName:
+				key, val = "SubDistributors", "[]"
+			}
+			content := paramproposal.NewParameterChangeProposal("verif", "legacy parameter change", []paramproposal.ParamChange{paramproposal.NewParamChange(sub, key, val)})
+			if m, err := govv1beta1.NewMsgSubmitProposal(content, sdk.NewCoins(sdk.NewCoin(BondDenom, sdk.NewInt(1))), kernel.ActorAddr(spec.Clients[0])); err == nil {
+				if t := msgTx(spec.Clients[0], m, ""); t != nil {
+					t.Note = "legacy-param-change-proposal"
+					b.Txs = append(b.Txs, *t)
+				}
 			}
 		}
 		tr.Blocks = append(tr.Blocks, b)
@@ -297,7 +320,7 @@ func typeOr(vg vtypes.GenesisState, want string) string {
 }
 
 // toLegacyLayout rewrites the custom modules' stores into the v1.1.0 layout inside the current block.
-func toLegacyLayout(c *kernel.Chain) (legacyMinter mintertypes.LegacyParams, legacyDist disttypes.Params, err error) {
+func toLegacyLayout(c *kernel.Chain, zeroExpAmount bool) (legacyMinter mintertypes.LegacyParams, legacyDist disttypes.Params, err error) {
 	ctx := c.Ctx()
 	cdc := kernel.Enc().Marshaler
 	amino := c.App.LegacyAmino()
@@ -350,6 +373,10 @@ func toLegacyLayout(c *kernel.Chain) (legacyMinter mintertypes.LegacyParams, leg
 		case *mintertypes.LinearMinting:
 			lm.Type, lm.LinearMinting = mintertypes.LinearMintingType, cfg
 		case *mintertypes.ExponentialStepMinting:
+			if zeroExpAmount {
+				// the previous format allowed an exponential period that emits nothing (amount 0)
+				cfg = &mintertypes.ExponentialStepMinting{Amount: sdk.ZeroInt(), AmountMultiplier: cfg.AmountMultiplier, StepDuration: cfg.StepDuration}
+			}
 			lm.Type, lm.ExponentialStepMinting = mintertypes.ExponentialStepMintingType, cfg
 		default:
 			lm.Type = mintertypes.NoMintingType
@@ -426,7 +453,7 @@ func c16Replay(tr *kernel.Trace) *Outcome {
 			for _, vt := range r.Chain.App.CfevestingKeeper.GetAllVestingTypes(r.Chain.Ctx()).VestingTypes {
 				s0.vtypes[vt.Name] = true
 			}
-			legacyMinter, legacyDist, prepErr = toLegacyLayout(r.Chain)
+			legacyMinter, legacyDist, prepErr = toLegacyLayout(r.Chain, extra.ZeroExpAmount)
 			if prepErr == nil {
 				prepErr = r.Chain.App.UpgradeKeeper.ScheduleUpgrade(r.Chain.Ctx(), upgradetypes.Plan{Name: v120.UpgradeName, Height: r.Chain.Header.Height + 1})
 			}
@@ -721,6 +748,9 @@ func legacyMintModel(lp mintertypes.LegacyParams) *models.MintModel {
 		case mintertypes.ExponentialStepMintingType:
 			p.Kind, p.Amount, p.StepNs = models.MintExp, lm.ExponentialStepMinting.Amount.BigInt(), int64(lm.ExponentialStepMinting.StepDuration)
 			p.Mult = decToRat(lm.ExponentialStepMinting.AmountMultiplier)
+			if lm.ExponentialStepMinting.Amount.IsZero() {
+				p = models.MintPeriod{Kind: models.MintNone, End: p.End} // emits nothing: the same schedule as a no-minting period
+			}
 		default:
 			p.Kind = models.MintNone
 		}
